@@ -315,6 +315,11 @@ def _padded(rows):
     return [list(row) + [""] * (width - len(row)) for row in rows]
 
 
+def _is_run_markup(text):
+    """Text wrapped in the element that OOXML uses for a run of a rich string."""
+    return text.startswith("<r>") and text.endswith("</r>")
+
+
 def check_writer(sub, case):
     rows = case["rows"]
     # A trailing row WITHOUT any cell writes nothing and cannot come back; every cell that is written - also an
@@ -364,7 +369,12 @@ def check_writer(sub, case):
                     rows, type(error).__name__, error))
             return
         if actual != expected:
-            sub.fail("C16|writer-roundtrip", case, "table %r written with XlsxRowWriter reads back as %r%s" % (
+            signature = "C16|writer-roundtrip"
+            if len(actual) == len(expected) and all(len(a) == len(e) for a, e in zip(actual, expected)):
+                changed = [e for arow, erow in zip(actual, expected) for a, e in zip(arow, erow) if a != e]
+                if changed and all(_is_run_markup(cell) for cell in changed):
+                    signature = "C16|writer-roundtrip|only-cells-in-run-markup"
+            sub.fail(signature, case, "table %r written with XlsxRowWriter reads back as %r%s" % (
                 expected, actual, _xlrd_view(path)))
         sub.case(json.dumps(case, sort_keys=True), ragged or special, classes,
                  sample={"kind": "writer", "rows": [[cell if len(cell) <= 40 else "%s... (%d characters)" % (
@@ -496,7 +506,14 @@ SPECIAL_STRINGS = [
     "http://example.com/a?b=c", "https://example.com", "ftp://example.com/x", "mailto:bob@example.com", "mailto:",
     "bob@example.com", "internal:Sheet1!A1", "external:other.xlsx", "+1", "-1", "@SUM(1)", "1/2", "50%", "1E5",
     "01.02.2020", "{=A1}", "  ", "\u200b",
+    # texts that look like the markup the file itself is made of
+    "<t>x</t>", "<si><t>x</t></si>", "<r>", "x<r>y</r>", "&amp;", "&#65;",
+    "_x000D_", "a_x005F_b", "<![CDATA[x]]>", "<?xml?>", "<!--x-->",
 ]
+# Texts wrapped in the element of a rich-string run.  Only for the writer round trip: the workbook encoder of this
+# harness is built on XlsxWriter, which copies such texts into the file as markup instead of escaping them, so it
+# cannot produce a file that holds them as text.
+RUN_MARKUP_STRINGS = ["<r>x</r>", "<r><t>x</t></r>", "<r></r>", "<r><t>a</t></r><r><t>b</t></r>"]
 ALPHABET = "ab Z09.=-+<>&\"'äß€中\t\n"
 _BOUNDARY_WHOLES = sorted(set(
     sign * (base ** power + delta)
@@ -646,7 +663,8 @@ LONG_TEXT_LENGTHS = [254, 255, 256, 1023, 8191, 8192, 32765, 32766]  # plus the 
 
 @st.composite
 def writer_cases(draw):
-    cell = st.one_of(st.sampled_from(SPECIAL_STRINGS), st.text(alphabet=ALPHABET, max_size=8), st.just(""))
+    cell = st.one_of(st.sampled_from(SPECIAL_STRINGS + RUN_MARKUP_STRINGS), st.text(alphabet=ALPHABET, max_size=8),
+                     st.just(""))
     rows = draw(st.lists(st.lists(cell, max_size=6), max_size=6))
     if rows and draw(st.integers(0, 2)) > 0:
         # mostly: a non-empty cell in the last row and in the last column of the widest row; otherwise trailing
